@@ -35,6 +35,14 @@ def run(ctx, chk):
     chk.rule("R4", "every send of a request with a reply/ack is followed by its receiver on every success path")
     chk.rule("R5", "reply receivers size the variable part from the reply's own header (no wait for bytes that were never promised)")
     run_on(fb, chk)
+    # short reads must stay detectable: the receive primitives' byte counts are never dropped (rule S7 of C08),
+    # and the acknowledgement is written whenever the frontend waits for one (flag formula, rule P4 of C04)
+    from vlint.report import Renamed
+    from . import c08, c04
+    chk.rule("R6", "receive byte counts are never discarded (a truncated reply cannot pass for a complete one)")
+    c08.s7s8(fb, Renamed(chk, {"S7": "R6"}))
+    chk.rule("R7", "the backend's reply-ack flag is the negotiated one (an awaited acknowledgement is always written)")
+    c04.p4(fb, Renamed(chk, {"P4": "R7"}), common.dispatch_fn(fb), "")
     n = lambda r: len([i for i in chk.instances if i[0] == r])
     chk.floor("R1", n("R1"), 10)
     chk.floor("R2", n("R2"), 5)
